@@ -2,7 +2,6 @@ package scen
 
 import (
 	"fmt"
-	"math"
 	"strconv"
 	"strings"
 	"time"
@@ -147,6 +146,7 @@ func runC12(s *kernel.Sim) {
 	// doRequest asks the plugin and judges a replay; returns the size of the hit.
 	doRequest := func(k key, probe bool) int {
 		n++
+		start := s.Now() // the request may be held at a lock site while the clock moves on
 		var act actions.ReqLunarAction
 		var err error
 		if throttling {
@@ -188,7 +188,7 @@ func runC12(s *kernel.Sim) {
 			s.Violate("R1", "wrong-status", "replayed status %d, stored %d", er.Status, st.status)
 		}
 		s.Rule("R2")
-		if now > st.at+st.ttl {
+		if start > st.at+st.ttl {
 			s.Violate("R2", "stale-replay", "request %s at %v answered from a response stored at %v with time-to-live %v (expired %v ago)", keyStr(k), now, st.at, st.ttl, now-st.at-st.ttl)
 		}
 		if throttling {
@@ -202,7 +202,8 @@ func runC12(s *kernel.Sim) {
 				}
 			} else {
 				want := st.retry - (now - st.at).Seconds()
-				if math.Abs(got-want) > 0.001 {
+				wantAtStart := st.retry - (start - st.at).Seconds() // read at some instant between start and return
+				if got < want-0.001 || got > wantAtStart+0.001 {
 					s.Violate("R3", "retry-after-not-reduced-by-elapsed", "request %s at %v: replayed Retry-After %v, original %v stored at %v, expected %v", keyStr(k), now, got, st.retry, st.at, want)
 				}
 			}
@@ -276,10 +277,28 @@ func runC12(s *kernel.Sim) {
 					}
 				})
 			}
+			allReaders := true
+			for _, o := range ops {
+				allReaders = allReaders && !o.resp
+			}
 			for st := 0; st < 3000; st++ {
 				p := s.ParkedTasks()
 				if len(p) == 0 {
 					break
+				}
+				// a reader held at a lock site while a stored entry reaches its expiry
+				// (the entry's own sleeper removes it meanwhile)
+				if allReaders && st > 0 && tp.Chance(1, 8) {
+					var exp []time.Duration
+					for _, b := range sortedKeys(stored) {
+						if e := stored[b].at + stored[b].ttl; e >= s.Now() && len(exp) < 8 {
+							exp = append(exp, e+1, e+time.Millisecond)
+						}
+					}
+					if len(exp) > 0 {
+						s.SleepUntil(exp[tp.Choose(len(exp))])
+						s.FaultFired("reader_stalled_across_expiry")
+					}
 				}
 				s.Resume(p[tp.Choose(len(p))])
 			}
